@@ -6,7 +6,7 @@ func extraRules() []*Rule {
 	out = append(out, rulesLocks()...)
 	out = append(out, rulesTables()...)
 	out = append(out, rulesStorage()...)
-	out = append(out, ruleLifecycle(), ruleHeartbeat(), ruleRecordOffset(), ruleFollowerLookup(), ruleOffsetOwner(), ruleSendLabel(), ruleVerifyRound(), ruleContactRefresh(), ruleHandlerDemote(), rulePrevoteToken(), ruleApplyWait(), ruleRestoreReconcile(), ruleOptionRange(), rulePartialReset(), ruleLeaseDuration(), ruleLogPosition(), ruleSnapVisible(), ruleAEBound())
+	out = append(out, ruleLifecycle(), ruleHeartbeat(), ruleRecordOffset(), ruleFollowerLookup(), ruleOffsetOwner(), ruleSendLabel(), ruleVerifyRound(), ruleContactRefresh(), ruleHandlerDemote(), rulePrevoteToken(), ruleApplyWait(), ruleRestoreReconcile(), ruleOptionRange(), rulePartialReset(), ruleLeaseDuration(), ruleLogPosition(), ruleSnapVisible(), ruleAEBound(), ruleLoopAlias())
 	return out
 }
 
@@ -53,6 +53,7 @@ func extraSpecs() []*PropertySpec {
 		{ID: "C17", Rules: []string{"QUORUM-SHAPE"}, Decided: "the quorum that renews the lease is a strict majority of voters, and the single-voter shortcut applies only to a node that is itself the voter"},
 		{ID: "C09", Rules: []string{"IS-HANDLER/IS-COMPLETE"}, Decided: "an installed snapshot's configuration is applied together with it"},
 		{ID: "C15", Rules: []string{"AE-BOUND"}, Decided: "what one AppendEntries request carries is bounded, so a member that is far behind is brought up to date in requests the transport accepts"},
+		{ID: "C09", Rules: []string{"LOOP-ALIAS"}, Decided: "the configurations restore() leaves in r.configuration and r.committedConfiguration are distinct objects per log entry (no pointer to a loop-carried variable is kept in node state)"},
 		{ID: "C12", Rules: []string{"LOG-POSITION"}, Decided: "the log file is never in append mode and is positioned whenever a new descriptor is installed, so a record's Offset is where the record is"},
 		{ID: "C19", Rules: []string{"LOG-POSITION"}, Decided: "as C12: offsets read back from storage equal the positions written"},
 		{ID: "C06", Rules: []string{"LOG-POSITION"}, Decided: "Truncate cuts the persistent log where the in-memory log says"},
